@@ -23,7 +23,7 @@ EXPLANATION = ('Dominance rules with strength over the CFG of lz4::decompress, r
                'decremented after every copy, the source cursor is tested before every read of the sequence header, the constants are '
                'coherent, and the wrapper neither skips a result check nor rejects more than the decoder contract.  That the bytes '
                'produced equal a reference decoder\'s and that compressed fonts shape identically are run-time facts, not decided.')
-FLOORS = {'COPYGUARD': 11, 'BOOKKEEPING': 2, 'SEQGUARD': 4, 'LZCONST': 1, 'DECOMPRESS': 6, 'TABLETS': 1}
+FLOORS = {'COPYGUARD': 11, 'BOOKKEEPING': 2, 'SEQGUARD': 4, 'LZCONST': 1, 'DECOMPRESS': 6, 'TABLETS': 2}
 
 import re
 
@@ -585,6 +585,14 @@ def run(run):
     lzconst(run, fx)
     decompress(run, fx)
     from . import c16
+    try:
+        cases_, bad_ = c16.table_exec(run, fx)        # the whole life of a (compressed) table: every buffer goes back exactly once, the right way (shared with C16)
+        if bad_:
+            run.violated('TABLETS', 'Table life cycle interpreted', fx.one('graphite2::Face::Table::release').where(), bad_)
+        else:
+            run.held('TABLETS', 'Table life cycle interpreted', fx.one('graphite2::Face::Table::release').where(), '%d life cycles' % cases_)
+    except AnalysisBroken as ex:
+        run.broken('TABLETS', 'Table life cycle interpreted', str(ex), '')
     c16.flagpair(run, fx)        # the compressed original goes back to the application, not to free(): flag and pointer change together (shared with C16)
 
 
